@@ -260,7 +260,25 @@ func vC07(deferred bool) {
 	steps := zzverif.NondetInt("steps", 1, zzverif.Param("STEPS", 2))
 	first := before
 	var prev filter.Filter = symFilter{0}
+	static := true
 	for s := 0; s < steps; s++ {
+		if s > 0 && zzverif.Param("MOVING", 1) == 1 && zzverif.NondetInt("parent-moves", 0, 1) == 1 {
+			// the parent changes between two refilters (possibly in a way the current filter hides)
+			e.parentChange()
+			zzverif.Quiesce()
+			static = false
+			par = vListEnts(e.pcache, "harness/parent-list")
+			before = vListEnts(e.fs.Cache(), "harness/own-list")
+			for {
+				select {
+				case <-e.fs.Events():
+					continue
+				default:
+				}
+				break
+			}
+			zzverif.Reach("C07/parent-moved")
+		}
 		var f filter.Filter
 		switch zzverif.NondetInt("f", 0, 7) {
 		case 5: // NSName filters over the parent's own keys: nested sets
@@ -351,7 +369,7 @@ func vC07(deferred bool) {
 		before = after
 		prev = f
 	}
-	if steps == 2 && filter.FiltersEqual(prev, symFilter{0}) {
+	if static && steps == 2 && filter.FiltersEqual(prev, symFilter{0}) {
 		zzverif.Reach("C07/restore")
 		zzverif.Assert(vSameContent(first, before), "C07/restore")
 	}
